@@ -33,6 +33,33 @@ def generate(rng, tier):
         add("literal|from_u32 %d" % x, "ctor")
         add("literal|from_slice 2 %d 98" % x, "ctor")
         add("literal|from_vec 2 %d 98" % x, "ctor")
+    # accessors: array constructor (sizes 0-4 and 7), is_good / len / is_empty / char(i) / iter /
+    # is_unicode / to_unicode_string on clamped slices, good_char, good_string on raw slices
+    add("literal|from_array 0", "accessors")
+    add("literal|accessors 0", "accessors")
+    add("literal|charat 0 0", "accessors")
+    for x in SPECIAL_U32:
+        add("literal|from_array 1 %d" % x, "accessors")
+        add("literal|from_array 3 97 %d %d" % (x, x), "accessors")
+        add("literal|accessors 3 %d 97 %d" % (x, x), "accessors")
+        add("literal|good_char %d" % x, "accessors")
+        add("literal|good_string 2 97 %d" % x, "accessors")
+        add("literal|charat 2 %d 98 %d" % (x, rng.choice([0, 1, 2, 3])), "accessors")
+    for x in (0xD7FF, 0xD800, 0xD801, 0xDBFF, 0xDC00, 0xDFFE, 0xDFFF, 0xE000):
+        # surrogates are SMT characters but not Rust chars: is_unicode false, replaced by U+FFFD
+        add("literal|accessors 4 97 %d %d 98" % (x, MAXC), "accessors")
+    for _ in range(n // 6):
+        k = rng.choice([0, 1, 2, 3, 4, 7])
+        l = [rng.choice(SPECIAL_U32 + [97, 98, 0xD801, 0xDBFF, 0xDC00]) for _ in range(k)]
+        r = rng.random()
+        if r < 0.3:
+            add("literal|from_array %s" % w(l), "accessors")
+        elif r < 0.7:
+            add("literal|accessors %s" % w(l), "accessors")
+        elif r < 0.85:
+            add("literal|charat %s %d" % (w(l), rng.randint(0, k + 2)), "accessors")
+        else:
+            add("literal|good_string %s" % w(l), "accessors")
     esc = [92, 117, 123, 125, 48, 51, 102, 70, 34]
     # escape values around the MAX_CHAR boundary, written out
     for hexs in ("2FFFF", "2ffff", "30000", "30001", "2FFFE", "02FFFF", "3FFFF", "FFFFF", "10FFFF", "0", "D800", "FFFD"):
@@ -77,7 +104,7 @@ def generate(rng, tier):
             add("regex|W smtrange 1 97 1 98 ; star 0 ; str 1 %d ; concat 1 2 ; %s 3 %s %s" % (
                 rng.choice([97, MAXC]), rng.choice(["replre", "replreall"]), w(a), w(rep)), "replace_re")
             add("regex|range %d %d ; plus 0 ; getstr 1 ; comp 1 ; getstr 2" % (rng.choice([0, 97, MAXC]), MAXC), "get_string")
-    info = {"rule": "every special code point (0, quote, backslash, 0x7F/0x80, surrogate edges, 0xFFFD, 0xFFFF/0x10000, MAX_CHAR, MAX_CHAR+1, U+30000, U+E0000, U+10FFFF; for integer constructors also 0xD800, 0xDFFF, 0x110000, 2^31, 2^32-1) through every constructor; random strings / slices / literal texts with planted out-of-range escapes; each result is checked with is_good, ReManager::str, str_in_re and Display; str_* / str_from_code / str_from_int / regex replace / get_string outputs; non-trivial = involves a code point outside printable ASCII",
+    info = {"rule": "every special code point (0, quote, backslash, 0x7F/0x80, surrogate edges, 0xFFFD, 0xFFFF/0x10000, MAX_CHAR, MAX_CHAR+1, U+30000, U+E0000, U+10FFFF; for integer constructors also 0xD800, 0xDFFF, 0x110000, 2^31, 2^32-1) through every constructor; random strings / slices / literal texts with planted out-of-range escapes; each result is checked with is_good, ReManager::str, str_in_re and Display; str_* / str_from_code / str_from_int / regex replace / get_string outputs; the accessors From<&[u32; N]> (N = 0-4, 7), is_good, len, is_empty, char(i) in and out of range, iter, is_unicode, to_unicode_string (surrogate edges), good_char, good_string; non-trivial = involves a code point outside printable ASCII",
             "distribution": dist}
     return cases, info
 
